@@ -98,6 +98,12 @@
 (*                    by a newline                     -> NormalFormEdited *)
 (*   "StickyParseFlag"  a per-object flag set by one parse and read after  *)
 (*                    the next (Mode "reuse")       -> ParseIsHistoryFree  *)
+(*   "DecoderTail"  a per-PROCESS incremental decoder keeps the undecoded  *)
+(*                    tail of an input that a FAULT of the caller-supplied *)
+(*                    object cut inside a line (short read / early EOF     *)
+(*                    inside a multi-byte character, an exception of the   *)
+(*                    iterator) and prepends it to the byte line decoded   *)
+(*                    next (Mode "reuse")           -> ParseIsHistoryFree  *)
 (*   "HeadingMemo"  the split heading line is memoised per PROCESS, keyed  *)
 (*                    by the text of the line, after a lenient parse; its  *)
 (*                    diagnostics are produced on a miss only (Mode "proc")*)
@@ -108,6 +114,9 @@
 (*   "unsetFormatsEmpty"  version = None is stored as an empty version,    *)
 (*                    the heading 'pkg () dist' is no heading              *)
 (*                                                     -> NormalFormEdited *)
+(*   "diagFormats:CJunk"  the report of the branch uses the quoted input   *)
+(*                    line as a format string (closed configuration)       *)
+(*                                                         -> PayloadFree  *)
 (*   "keepNoDetails"  the rejected ' --' line is kept as a change line:    *)
 (*                    NOT a violation (still a normal form) -- documents   *)
 (*                    that the law is insensitive to it.                   *)
@@ -234,6 +243,29 @@ BOut(b, s, c) ==
 
 \* does the strict run raise on this branch?  (the same _parse_error call: warn <=> raise)
 Raises(b, s, c) == BOut(b, s, c).w = 1 /\ Bug # ("strictSkips:" \o b)
+
+\* --- diagnostics QUOTE the input (round 6).  The report of a warning branch (warn, resp. raise the parse error)
+\* is a fixed text plus a piece of the offending line -- the whole line, one key=value item of the heading, the
+\* urgency value, the (folded) key -- and that piece is DATA: the report happens whatever characters it is made
+\* of.  PayloadKinds abstracts the characters of a line: "plain", or "fmt" = the quoted piece (and every other
+\* free-text piece of the line) contains characters that mean something to a formatting mini-language
+\* ('%', '%s', '%d', '%(x)s', '{}', '{0}', a backslash ...).  The class of a line is independent of its kind
+\* (the concretizer keeps it), and so is everything the parser does with it: PayloadFree.
+\*   Bug = "diagFormats:<branch>"  the report of that branch uses the quoted piece as a FORMAT: with a "fmt"
+\*                                 payload the call raises something else instead of reporting -> PayloadFree
+PayloadKinds == {"plain", "fmt"}
+Quoted(b, s, c) ==          \* which piece of the line the report of the branch quotes ("none": no report / fixed text)
+  CASE b \in {"HJunk", "CJunk", "CNoDetailsReject"} -> "line"
+    [] b = "CEnd" /\ c = "EndOneSpace"              -> "line"
+    [] b = "HTop" /\ c = "TopBadKV"                 -> "item"
+    [] b = "HTop" /\ c = "TopBadUrg"                -> "value"
+    [] b = "HTop" /\ c = "TopDupKey"                -> "key"
+    [] OTHER                                        -> "none"
+\* outcome of the branch's report for a line of payload kind k: "none" | "report" | "crash"
+Report(b, s, c, k) ==
+  IF BOut(b, s, c).w = 0 THEN "none"
+  ELSE IF Bug = ("diagFormats:" \o b) /\ k = "fmt" /\ Quoted(b, s, c) \notin {"none", "key"} THEN "crash"
+  ELSE "report"
 
 ----------------------------------------------------------------------------
 \* documents
@@ -475,9 +507,25 @@ NoText == <<>>                       \* "nothing kept"; a kept text is <<text>>
 \* std: every add_change of the history so far used today's position (RulePos)
 \* pf, f2 (Mode "reuse"): the parse under test runs on an object that was used before; pf: a per-object
 \*     flag some earlier parse left behind ("the earlier text ended in a newline"), f2: the form of THIS input
+\*     ("text": str / bytes, "lines": a file object / iterable of str lines, "blines": of BYTE lines, which
+\*     the parser decodes one by one)
+\* carry (Mode "reuse"): how the parse made in this PROCESS right before the one under test ended -- on the same
+\*     or on another object -- when the object the CALLER supplied failed (notes/SIZE_STRESS.md part 5):
+\*     "exc" its iterator / read raised at some line, "eofLine" / "eofInLine" / "eofInChar" the input ended
+\*     early at a line end / inside a line / inside a multi-byte character (short read, truncated file; byte
+\*     inputs only).  The faulted call itself is not judged (whatever exception comes out, or warnings); the
+\*     reference parser keeps NOTHING of it: KeptTail
 \* memo (Mode "proc"): what the PROCESS keeps between parses (line texts already taken apart / reported)
 RInit == [rc |-> <<>>, om |-> <<>>, out |-> <<>>, fresh |-> FALSE, what |-> 0, vt |-> {}, mut |-> {}, std |-> TRUE,
-          pf |-> TRUE, f2 |-> "text", memo |-> {}]
+          pf |-> TRUE, f2 |-> "text", memo |-> {}, carry |-> "none"]
+InputForms == {"text", "lines", "blines"}
+FaultKinds == {"exc", "eofLine", "eofInLine", "eofInChar"}
+\* what the process keeps of the input of a faulted parse.  Bug = "DecoderTail": a per-process incremental
+\* decoder keeps the bytes of the incomplete character the input ended in
+KeptTail(k) == IF Bug = "DecoderTail" /\ k = "eofInChar" THEN <<"tail">> ELSE <<>>
+\* the parse under test gets its own input, the whole input and nothing but its input (byte lines are what goes
+\* through the line decoder; a kept tail is prepended to the first line decoded next)
+InputIntact(r, t) == ~(r.f2 = "blines" /\ KeptTail(r.carry) # <<>> /\ Len(t) > 0)
 Shown(r, tok) == IF \E x \in r.vt : x[1] = tok THEN (CHOOSE x \in r.vt : x[1] = tok)[2] ELSE tok
 RBlock(d, r, i) == IF BlockRenderCache /\ i <= Len(r.rc) /\ r.rc[i] # NoText THEN r.rc[i][1] ELSE FormatBlock(d.bl[i])
 RECURSIVE ROlder(_, _, _)
@@ -544,7 +592,8 @@ Ctl(p) == [st |-> p.st, old |-> p.old, w |-> p.nw, nb |-> p.nb, nonblank |-> p.n
 
 Init == /\ P = PInit /\ aea \in AEAs /\ sraised = FALSE /\ text = <<>> /\ gen = GenInit
         /\ budget = Budget /\ phase = "text" /\ D = EmptyDoc /\ ops = <<>>
-        /\ rs \in (IF Mode = "reuse" THEN {[RInit EXCEPT !.pf = a, !.f2 = b] : a \in BOOLEAN, b \in {"text", "lines"}} ELSE {RInit})
+        /\ rs \in (IF Mode = "reuse" THEN {[RInit EXCEPT !.pf = a, !.f2 = b, !.carry = k] :
+                                               a \in BOOLEAN, b \in InputForms, k \in FaultKinds \cup {"none"}} ELSE {RInit})
 
 Keep == UNCHANGED <<aea, phase, D, ops, rs>>
 
@@ -557,7 +606,9 @@ LConsume(c) ==
           o  == BOut(b, P.st, c)
       IN /\ P' = Abs(Apply(P, ln, o))
          /\ sraised' = (sraised \/ Raises(b, P.st, c))
-         /\ (Emit => PrintT(<<"EDGE", ToJson([from |-> Ctl(P), aea |-> aea, c |-> c, b |-> b, out |-> o, to |-> Ctl(P')])>>))
+         /\ (Emit => PrintT(<<"EDGE", ToJson([from |-> Ctl(P), aea |-> aea, c |-> c, b |-> b, out |-> o, to |-> Ctl(P'),
+                                              q |-> Quoted(b, P.st, c),
+                                              rep |-> [k \in PayloadKinds |-> Report(b, P.st, c, k)]])>>))
    /\ UNCHANGED <<text, gen, budget>> /\ Keep
 LEof ==
    /\ Mode = "lts" /\ phase = "text"
@@ -700,6 +751,11 @@ StrictIffWarn == sraised <=> (P.nw > 0)
 SlurpOnlyFromHeading == P.st = "SL" => P.old = "NH"
 \* a trailing line always has a block to go to
 TrailingHasTarget == P.st \in {"NH", "SL"} => P.nb >= 1
+\* what the parser does with a line does not depend on the characters of the piece its report quotes: for every
+\* class in every reachable state the report of the branch is the same for every payload kind (never a crash)
+PayloadFree == (Mode = "lts" /\ phase = "text") =>
+                  \A c \in AllClasses, k \in PayloadKinds : \A b \in Enabled(P.st, P.old, c, aea) :
+                      Report(b, P.st, c, k) = Report(b, P.st, c, "plain") /\ Report(b, P.st, c, k) # "crash"
 LtsTypeOK == /\ P.st \in {"FH", "NH", "SC", "MC", "SL", "END"} /\ P.old \in {"none", "NH"}
              /\ P.nonblank \in BOOLEAN /\ (~P.nonblank => P.st \in {"FH", "END"} /\ P.nw \in {0, 1})
 
@@ -738,11 +794,14 @@ CleanRoundTrip   == (Mode # "lts" /\ phase = "text" /\ Res.nw = 0 /\ Formattable
 \* its own input only.  Bug = "StickyParseFlag": a per-object flag is assigned by the str / bytes branch of a
 \* parse only and read by the formatter ("the text had no final newline"), so it survives a later parse from
 \* a file object / iterable of lines                                           -> ParseIsHistoryFree
-ObjFinalNewline(r) == IF Bug = "StickyParseFlag" /\ r.f2 = "lines" THEN r.pf ELSE TRUE
+\* The same across the PROCESS (rs.carry): the parse made before -- by this or by another object -- ended in a
+\* fault of the caller-supplied input; nothing of that input reaches the parse under test: InputIntact.
+ObjFinalNewline(r) == IF Bug = "StickyParseFlag" /\ r.f2 # "text" THEN r.pf ELSE TRUE
 ObjText(r, d) == IF ObjFinalNewline(r) THEN Format(d) ELSE Format(d) \o <<[c |-> "NoFinalNewline", id |-> -9, h |-> <<>>]>>
 ParseIsHistoryFree == (Mode = "reuse" /\ phase = "text") =>
                          /\ ObjText(rs, PEofF(P, rs.f2).doc) = Format(PEofF(P, rs.f2).doc)       \* = what a fresh object gives
                          /\ WellFormedText => ObjText(rs, Res.doc) = text
+                         /\ InputIntact(rs, text)
 
 \* C15, call histories of one PROCESS (Mode "proc"): a parse depends on nothing but its own input -- every
 \* call has the outcome of the reference parse of the text, whatever was parsed before, in whatever mode
@@ -786,8 +845,15 @@ EmitText == (Emit /\ Mode = "text" /\ (Budget > 0 \/ WellFormedText)) =>
 EmitEdit == (Emit /\ Mode = "edit" /\ phase = "edit") =>
                PrintT(<<"CASE", ToJson([t |-> TextClasses, aea |-> aea, ops |-> ops,
                                         fmt |-> Formattable(D), spec |-> Specified(D), doc |-> Struct(D)])>>)
+\* (Mode "reuse") a complete well-formed text parsed by an object / in a process with the history rs.pf, rs.carry,
+\* handed over in the form rs.f2: what the parse must show
+EmitReuse == (Emit /\ Mode = "reuse" /\ phase = "text" /\ WellFormedText) =>
+               PrintT(<<"CASE", ToJson([t |-> TextClasses, aea |-> aea, wf |-> TRUE, pf |-> rs.pf, f2 |-> rs.f2,
+                                        carry |-> rs.carry, nw |-> PEofF(P, rs.f2).nw, sr |-> sraised \/ EofWarn(P) = 1,
+                                        intact |-> InputIntact(rs, text),
+                                        doc |-> Struct(PEofF(P, rs.f2).doc)])>>)
 \* which earlier line (smallest index) has the identical text
-SameAs == [i \in 1..Len(text) |-> CHOOSE j \in 1..i : text[j] = text[i] /\ \A k \in 1..(j - 1) : text[k] # text[i]]
+SameAs ==[i \in 1..Len(text) |-> CHOOSE j \in 1..i : text[j] = text[i] /\ \A k \in 1..(j - 1) : text[k] # text[i]]
 EmitProc == (Emit /\ Mode = "proc" /\ phase = "proc" /\ Len(ops) = MaxEdits) =>
                PrintT(<<"CASE", ToJson([t |-> TextClasses, same |-> SameAs, aea |-> aea, calls |-> ops])>>)
 LineToks(t) == [i \in 1..Len(t) |-> [c |-> t[i].c, id |-> t[i].id, h |-> t[i].h]]
